@@ -106,17 +106,27 @@ class CallSpec(object):
   are evaluated, the result is unconstrained (a fresh value of `returns`), `havoc(I, st)` may weaken the state
   according to the effect envelope stated in `envelope` (recorded as an assumption)."""
   def __init__(self, kind="opaque", returns=None, envelope="no effect on the objects this contract mentions",
-               havoc=None, ghost=None):
+               havoc=None, ghost=None, may_raise=(), requires=None):
     self.kind = kind
     self.returns = returns
     self.envelope = envelope
     self.havoc = havoc
     self.ghost = ghost
+    self.may_raise = tuple(may_raise)
+    self.requires = requires
 
   def apply(self, I, f, args, kws, st, ctx, k, node):
-    from .values import fresh_int, fresh_bool
+    from .values import fresh_int, fresh_bool, ExcVal
+    if self.requires is not None:
+      cond = self.requires(I, st, args, kws)
+      I.check_obligation(st, cond, "call.pre:%s@%s" % (getattr(f, "qualname", getattr(f, "__qualname__", "?")),
+                                                      I.where(ctx, node)), kind="call")
     if self.ghost is not None:
-      self.ghost(I, st, f, args, kws)
+      self.ghost(I, st, f, args, kws)     # the call happened (ghost log), whatever its outcome
+    for exc in self.may_raise:
+      s2 = st.copy()
+      I.fork_count += 1
+      ctx.exc_k(s2, ExcVal(exc, ("raised by opaque callee",), where=I.where(ctx, node)))
     if self.havoc is not None:
       self.havoc(I, st, args, kws)
     I.opaque_calls = getattr(I, "opaque_calls", 0) + 1
